@@ -58,6 +58,9 @@ def run(ctx) -> None:
     rep.add("C05.R3", f"{rs.qname}:same-policy", ok, rs.loc(), "the nested run's default selection is the inner selection if set, else all outputs — the policy that defines the wrapper's outputs" if ok else "the nested run's default selection differs from what the wrapper exposes")
 
     check_cache_invalidation(ctx, "C05.R4", families=("Node",), only_classes=("GraphNode",))
+    from .c08 import check_inner_bound_merge_complete
+
+    check_inner_bound_merge_complete(ctx, "C05.R5")
 
     for name in ("has_default_for", "get_default_for"):
         m = gn.methods.get(name)
